@@ -35,8 +35,10 @@ def setup(ctx):
     from gemdat import Trajectory
     from gemdat.metrics import TrajectoryMetrics
 
-    _mon.attach(Trajectory, 'mean_squared_displacement', label='Trajectory.mean_squared_displacement')
-    _mon.attach(Trajectory, 'distances_from_base_position', label='Trajectory.distances_from_base_position')
+    from .. import retain as _rt
+
+    _mon.attach(Trajectory, 'mean_squared_displacement', label='Trajectory.mean_squared_displacement', retain=_rt.auto, scribble=True)
+    _mon.attach(Trajectory, 'distances_from_base_position', label='Trajectory.distances_from_base_position', retain=_rt.auto, scribble=True)
     _mon.attach(TrajectoryMetrics, 'tracer_diffusivity', label='TrajectoryMetrics.tracer_diffusivity')
 
 
@@ -83,7 +85,10 @@ def run_unit(unit, rng, ctx):
         if q == 'com':
             _ = traj.center_of_mass()
         elif q == 'haven' and N > 1:
-            _ = traj.metrics().haven_ratio(dimensions=3)
+            try:
+                _ = traj.metrics().haven_ratio(dimensions=3)
+            except ZeroDivisionError:
+                ctx.count('haven_ratio_of_a_static_centre_of_mass_raised')  # D_com = 0: no ratio exists
         elif q == 'positions':
             _ = traj.positions
         elif q == 'displacements':
